@@ -64,6 +64,17 @@ impl<T> View for Slab<T> {
     type V = Map<usize, T>;
     uninterp spec fn view(&self) -> Map<usize, T>;
 }
+pub uninterp spec fn slab_len<T>(m: Map<usize, T>) -> nat;
+impl<T> Slab<T> {
+    /// number of occupied entries
+    #[verifier::external_body]
+    pub fn len(&self) -> (r: usize) ensures r == slab_len(self@) { unimplemented!() }
+    /// stores the value under SOME vacant key and returns it (which one is up to the slab: the lowest free slot, not necessarily len())
+    #[verifier::external_body]
+    pub fn insert(&mut self, v: T) -> (r: usize)
+        ensures !old(self)@.contains_key(r), final(self)@ == old(self)@.insert(r, v),
+    { unimplemented!() }
+}
 /// `slab[key]` panics on a vacant key: the key must be occupied
 impl<T> vstd::std_specs::core::IndexSpecImpl<usize> for Slab<T> {
     open spec fn index_req(&self, i: &usize) -> bool { self@.contains_key(*i) }
